@@ -78,19 +78,19 @@ def do_compile_threads(texts, nthreads, opts):
     return {'r': 'threads', 'results': results}
 
 
-def do_tokens(text, filtered):
+def do_tokens(text, filtered, pos=False):
+    out = []
     try:
         lx = _lexer.LessLexer()
         lx.lexer.input(text)
-        out = []
         while True:
             t = lx.token() if filtered else lx.lexer.token()
             if not t:
                 break
-            out.append([t.type, t.value, t.lineno])
+            out.append([t.type, t.value, t.lineno, t.lexpos] if pos else [t.type, t.value, t.lineno])
         return {'r': 'ok', 'toks': out}
     except SyntaxError as e:
-        return {'r': 'error', 'cls': 'SyntaxError', 'msg': str(e)[:500]}
+        return {'r': 'error', 'cls': 'SyntaxError', 'msg': str(e)[:500], 'toks': out}
     except BaseException as e:          # noqa
         return {'r': 'escaped', 'type': type(e).__name__, 'msg': str(e)[:500]}
 
@@ -190,7 +190,7 @@ def main():
             elif k == 'compile_file':
                 ans = do_compile_file(req['path'], req.get('opts', {}))
             elif k == 'tokens':
-                ans = do_tokens(req['text'], req.get('filtered', True))
+                ans = do_tokens(req['text'], req.get('filtered', True), req.get('pos', False))
             elif k == 'parsedump':
                 ans = do_parsedump(req['text'])
             elif k == 'pycall':
